@@ -9,8 +9,9 @@ for f in sys.argv[4:]:
         if l.startswith('VERDICT'):
             m=re.match(r'VERDICT (\S+): (.*)', l.strip()); verdicts[m.group(1)]=m.group(2)
 head=subprocess_head=os.popen(f'git -C /tmp/wt/{pid} rev-parse --short HEAD').read().strip()
+off=int(os.environ.get('ROUND_OFFSET','0'))  # second round: OUT/m1, m2 are stored as m3, m4
 for m in ('m1','m2'):
-    d=f'/verif/seeded/{pid}-{m}'
+    d=f'/verif/seeded/{pid}-m{int(m[1])+off}'
     os.makedirs(d, exist_ok=True)
     shutil.copy(f'{out}/{m}.diff', f'{d}/patch.diff')
     demos=[p for p in glob.glob(f'{out}/demo_{m}*')]
@@ -23,7 +24,7 @@ for m in ('m1','m2'):
       'demonstration': [os.path.basename(p) for p in demos],
       'needs_to_manifest': 'see notes_from_author.md, section for ' + m,
       'confirmed_by_me_in_scratch_worktree': verdicts.get(f'{out}/{m}.diff','?'),
-      'commands_run': ['/verif/confirm_mutant.sh or confirm_mutant_lib.sh (patch applies; existing lib tests pass with it; demonstration fails with it and passes without)', f'/verif/try_mutant.sh {d}/patch.diff {pid}'],
+      'commands_run': ['/verif/confirm_mutant.sh or confirm_mutant_lib.sh (patch applies; existing lib tests pass with it; demonstration fails with it and passes without)', f'/verif/try_mutant.sh {d}/patch.diff {pid} (scratch worktree of /repo HEAD + patch, simulator rebuilt against it, verifsim run {pid} quick)'],
       'check_result': results[m],
     }
     json.dump(meta, open(f'{d}/meta.json','w'), indent=1)
